@@ -86,6 +86,10 @@ def compare(h, f, get_R, p, t, exact):
     if hs == fs:
         return 'identical', None
     hk, fk = h[0], f[0]
+    # resource exhaustion is a property of the process, not of the library's state: never judged
+    for e in (h, f):
+        if e[0] == 'exc' and e[1] in ('MemoryError', 'RecursionError', 'SimBudget', 'RunTimeout'):
+            return 'inadmissible', {'why': 'resource exhaustion (%s)' % e[1]}
     if hk == 'exc' or fk == 'exc':
         if hk == 'exc' and fk == 'exc':
             if h[1] == f[1]:
